@@ -212,8 +212,9 @@ storage_close(struct Storage* self)
     CHECK(self);
     storage_stop(self);
 
-    driver_close_device(&self->device);
+    // The driver releases the device: do not touch it afterwards.
     self->state = DeviceState_Closed;
+    driver_close_device(&self->device);
 Error:;
 }
 
